@@ -151,6 +151,13 @@ def run_shape(shape):
     def body():
         Md5Rec.last = None
         with bound(TR, literal_eval=lev, np=proxy, hashlib=HashStub, print=noprint, float=sym_float):
+            # another radial grid of the same process (other numbers, another syntax) is parsed and asked for everything first
+            try:
+                dec = TR.TranslationParser("linspace(0.25, 0.75, 3)" if kind == "list" else "[0.25, 0.75, 0.5]")
+                dec.get_increments(); TR.get_between_radii(dec.get_trans_grid()); TR.get_between_radii(dec.get_trans_grid(), include_zero=True)
+            except AssertionError:
+                pass
+            Md5Rec.last = None
             tp = TR.TranslationParser(tpl)
             grid = tp.get_trans_grid()
             md5arg = Md5Rec.last
